@@ -49,6 +49,11 @@ enum Op {
     GetBaseTime(NowKind),
     GetUnlocked,
     Sleep(u64),
+    /// Replace the first registered trusted path by a symlink to a fresh file
+    /// on the OTHER device (a mount that moved): trust is per device, so what
+    /// the path resolves to now must not be believed unless that device is
+    /// itself trusted.
+    SwapTrustedPath,
 }
 
 struct Fail {
@@ -81,6 +86,8 @@ struct Obs {
     before_trust_calls: u64,
     second_device_trusted: u64,
     pseudo_fs_none: u64,
+    path_swaps: u64,
+    scans_with_moved_path: u64,
 }
 
 struct World {
@@ -118,6 +125,11 @@ fn unlocked() -> Result<(u64, raffle::Voucher), Fail> {
             Ok(p)
         }
     }
+}
+
+/// True if some registered path still resolves to a device that is trusted.
+fn usable_trusted_path(w: &World, trusted: &[u64]) -> bool {
+    w.trusted_paths.iter().any(|p| ctime_ms(p).map(|(_, dev)| trusted.contains(&dev)).unwrap_or(false))
 }
 
 fn run_history(ops: &[Op], w: &mut World, obs: &mut Obs) -> Result<(), Fail> {
@@ -205,12 +217,28 @@ fn run_history(ops: &[Op], w: &mut World, obs: &mut Obs) -> Result<(), Fail> {
                     }
                 }
             }
+            Op::SwapTrustedPath => {
+                if let Some(p) = w.trusted_paths.first().cloned() {
+                    let on_a = p.starts_with(&w.dir_a);
+                    let target = if on_a { w.path(FileKind::FreshOnB) } else { w.path(FileKind::FreshOnA) };
+                    let mut fl = w.flip;
+                    std::thread::sleep(std::time::Duration::from_millis(2));
+                    bump_ctime(&target, &mut fl).map_err(|e| Fail { sig: "harness-io".into(), what: e.to_string() })?;
+                    w.flip = fl;
+                    let _ = std::fs::remove_file(&p);
+                    std::os::unix::fs::symlink(&target, &p).map_err(|e| Fail { sig: "harness-io".into(), what: e.to_string() })?;
+                    obs.path_swaps += 1;
+                }
+            }
             Op::Scan => {
                 candidates.extend(w.trusted_paths.iter().cloned());
                 match catch(nfs_voucher::scan_base_time) {
                     Err(pn) => return Err(Fail { sig: format!("panic:{}", panic_sig(&pn)), what: step(format!("scan_base_time panicked: {}", pn)) }),
                     Ok(Err(e)) => {
-                        return Err(Fail { sig: "scan-failed".into(), what: step(format!("scan_base_time failed ({} trusted device(s)): {}", trusted_before.len(), e)) });
+                        if usable_trusted_path(w, &trusted_before) || trusted_before.is_empty() {
+                            return Err(Fail { sig: "scan-failed".into(), what: step(format!("scan_base_time failed ({} trusted device(s)): {}", trusted_before.len(), e)) });
+                        }
+                        obs.scans_with_moved_path += 1;
                     }
                     Ok(Ok(())) => {}
                 }
@@ -228,7 +256,10 @@ fn run_history(ops: &[Op], w: &mut World, obs: &mut Obs) -> Result<(), Fail> {
                 match catch(|| nfs_voucher::get_base_time(now)) {
                     Err(pn) => return Err(Fail { sig: format!("panic:{}", panic_sig(&pn)), what: step(format!("get_base_time panicked: {}", pn)) }),
                     Ok(Err(e)) => {
-                        return Err(Fail { sig: "get-failed".into(), what: step(format!("get_base_time failed ({} trusted device(s)): {}", trusted_before.len(), e)) });
+                        if usable_trusted_path(w, &trusted_before) || trusted_before.is_empty() {
+                            return Err(Fail { sig: "get-failed".into(), what: step(format!("get_base_time failed ({} trusted device(s)): {}", trusted_before.len(), e)) });
+                        }
+                        obs.scans_with_moved_path += 1;
                     }
                     Ok(Ok(pair)) => {
                         if !pair_ok(&pair) {
@@ -317,7 +348,13 @@ fn gen_ops(rng: &mut Rng) -> Vec<Op> {
             7..=8 => Op::GetBaseTime(nows[rng.usize_below(nows.len())]),
             9 => Op::GetUnlocked,
             10 => Op::Sleep(rng.range(1, 4) as u64),
-            _ => Op::Sleep(if rng.chance(1, 6) { 101 } else { 2 }),
+            _ => {
+                if i > trust_at + 2 && rng.chance(1, 3) {
+                    Op::SwapTrustedPath
+                } else {
+                    Op::Sleep(if rng.chance(1, 6) { 101 } else { 2 })
+                }
+            }
         };
         ops.push(op);
     }
@@ -399,7 +436,9 @@ pub fn run(ctx: &mut Ctx) {
             ctx.feature_n("nfs.get_base_time_did_not_refresh", obs.not_refreshed_by_get);
             ctx.feature_n("nfs.calls_before_any_trust", obs.before_trust_calls);
             ctx.feature_n("nfs.second_device_trusted", obs.second_device_trusted);
-            ctx.signature(mix(&[obs.base_moved.min(12), obs.untrusted_none.min(6), obs.old_trusted_no_move.min(3), obs.refreshed_by_get.min(3), obs.not_refreshed_by_get.min(3), obs.before_trust_calls.min(6), obs.second_device_trusted, (ops.len() / 8) as u64]));
+            ctx.feature_n("nfs.trusted_path_swapped_to_other_device", obs.path_swaps);
+            ctx.feature_n("nfs.refresh_failed_because_path_moved", obs.scans_with_moved_path);
+            ctx.signature(mix(&[obs.base_moved.min(12), obs.untrusted_none.min(6), obs.old_trusted_no_move.min(3), obs.refreshed_by_get.min(3), obs.not_refreshed_by_get.min(3), obs.before_trust_calls.min(6), obs.second_device_trusted, obs.path_swaps.min(2), obs.scans_with_moved_path.min(2), (ops.len() / 8) as u64]));
             if idx < 3 {
                 ctx.sample(1, || case(&ops));
             }
